@@ -209,6 +209,18 @@ pub fn run(ctx: &Ctx) -> i32 {
     for p in parts.into_iter().rev() {
         rep.merge(p);
     }
+    // hand-assembled composites (transforms no planner produces): the same product
+    let hand: Vec<usize> = HAND_LENS.to_vec();
+    let hparts = par_map(&hand, |_, &n| {
+        let mut r = Report::new();
+        one_len::<f32>(n, &[PK::Hand], &mut r, None);
+        one_len::<f64>(n, &[PK::Hand], &mut r, None);
+        r
+    });
+    for p in hparts {
+        rep.merge(p);
+    }
+    rep.set("handbuilt_lengths", Json::Arr(hand.iter().map(|x| Json::Int(*x as i64)).collect()));
     let ex_n = t.pick(128, 512);
     let ex: Vec<usize> = (1..=ex_n).rev().collect();
     let seed = ctx.seed;
@@ -225,7 +237,7 @@ pub fn run(ctx: &Ctx) -> i32 {
     rep.set("pool_lengths", Json::Arr(pool.iter().map(|x| Json::Int(x.0 as i64)).collect()));
     rep.set("lengths_beyond_2^16", Json::Arr(big.iter().map(|x| Json::Int(*x as i64)).collect()));
     rep.rule = format!(
-        "planners x {{f32,f64}} x {{fwd,inv}} x every n in 1..={dn} (plus {pc} pool lengths up to {ph}, plus the lengths_beyond_2^16 with a thinned product: k=1, scratch adv/adv+17, contents zero/NaN/huge) x the 3 explicit-scratch entry points x k in {{1,2,3}} x scratch length in {{adv, adv+1, adv+17, 2*adv, max(adv,2n)+1}} x initial scratch content in {{0, NaN, +Inf, -Inf, huge, bit pattern}} x initial output content in the same 6: the full product; every variant must complete, be finite and be bit-identical to the (zero, advertised) variant. exact layer: FftPlanner::<Fp>, n in 1..={en}, poison-tagged scratch (adv, +1, +17) and output: no poison in the result, result equals the DFT in F_p. Non-trivial: n >= 2.",
+        "[also: one hand-assembled composite per length in handbuilt_lengths -- RadersAlgorithm / BluesteinsAlgorithm / MixedRadix / GoodThomasAlgorithm / Radix4 / Radix3::new_with_base over planner-built inner transforms that contain Bluestein's algorithm -- through the same product] planners x {{f32,f64}} x {{fwd,inv}} x every n in 1..={dn} (plus {pc} pool lengths up to {ph}, plus the lengths_beyond_2^16 with a thinned product: k=1, scratch adv/adv+17, contents zero/NaN/huge) x the 3 explicit-scratch entry points x k in {{1,2,3}} x scratch length in {{adv, adv+1, adv+17, 2*adv, max(adv,2n)+1}} x initial scratch content in {{0, NaN, +Inf, -Inf, huge, bit pattern}} x initial output content in the same 6: the full product; every variant must complete, be finite and be bit-identical to the (zero, advertised) variant. exact layer: FftPlanner::<Fp>, n in 1..={en}, poison-tagged scratch (adv, +1, +17) and output: no poison in the result, result equals the DFT in F_p. Non-trivial: n >= 2.",
         dn = dense_n,
         pc = pool.len(),
         ph = t.pick(1 << 13, 1 << 14),
